@@ -109,7 +109,8 @@ def scenarios(quick):
            ([] if quick else [
                (topos.with_required(T.eph_side(maxseq=1)), 'SpecZL', {}, dict(max_faults=1, fault_kinds=['stall', 'kill'], victims=['E', 'W'], check_c03=True)),
                (T.eph_side(maxseq=2), 'SpecZL', {}, {}),
-               (T.balance2_watch(maxseq=2), 'SpecZL', {}, {})]),
+               (T.balance2_watch(maxseq=2), 'SpecZL', {}, {}),
+               (T.bal_listen(maxseq=3), 'SpecZL', {}, {})]),
         conf=[(T.eph_side(maxseq=2), 'SpecPrompt', 8 if quick else 100, 200, dict(max_faults=1, fault_kinds=['stall', 'kill'], victims=['E', 'W'])),
               (T.tee_rejoin_eph(maxseq=2), 'SpecPrompt', 8 if quick else 100, 250, {}),
               (T.eph_side(maxseq=2), 'Spec', 6 if quick else 60, 250, {}),
@@ -128,6 +129,8 @@ def scenarios(quick):
               (topos.with_required(T.tee_rejoin_eph(maxseq=8)), 3 if quick else 40, 3000, 'kill'),
               # a '?' listener on the endpoint of a slow worker of a balanced splitter
               (T.balance2_eph(maxseq=40), 3 if quick else 40, 9000, 'late'),
+              # the same with every worker slower than the listener: the listener must not pull frames onto its endpoint
+              (T.balance2_eph(maxseq=40, w_ms=(400, 100)), 3 if quick else 40, 12000, 'late'),
               # a consumer that lists an ephemeral source before its synchronized one
               (topos.with_required(T.eph_first(maxseq=40, slowK=True)), 3 if quick else 40, 12000, 'run'),
               # the same with the listener attached from the very start (before the slow worker has registered): known finding
